@@ -304,6 +304,110 @@ static void do_seq(char *body)
   puts(outbuf);
 }
 
+/* ------------------------------------------------------------------------------------------
+ * virtual-array access path with a BACKING STORE: jpeg_open_backing_store is wrapped at link time
+ * (-Wl,--wrap=jpeg_open_backing_store); when enabled the harness supplies an in-memory "temp file", so
+ * the real realize_virt_arrays takes its backing-store branch and the real access_virt_* / do_*_io swap. */
+void __real_jpeg_open_backing_store(j_common_ptr cinfo, backing_store_ptr info, long total_bytes_needed);
+static int bs_enabled;
+static unsigned char *bs_file; static long bs_size;
+static void *bs_rows; static int bs_isb; static long bs_rowbytes;      /* the array under test */
+static char bs_log[1 << 16]; static size_t bs_loglen;
+
+static long bs_memidx(void *addr)
+{
+  long i, n;
+  if (bs_isb) { jvirt_barray_ptr b = (jvirt_barray_ptr)bs_rows; n = b->rows_in_mem; for (i = 0; i < n; i++) if ((void *)b->mem_buffer[i] == addr) return i; }
+  else { jvirt_sarray_ptr p = (jvirt_sarray_ptr)bs_rows; n = p->rows_in_mem; for (i = 0; i < n; i++) if ((void *)p->mem_buffer[i] == addr) return i; }
+  return -1;
+}
+static void bs_xfer(int writing, void *addr, long off, long cnt)
+{
+  if (off < 0 || cnt < 0 || off + cnt > bs_size) { fprintf(stderr, "harness: backing-store transfer [%ld,+%ld) outside the file of %ld bytes\n", off, cnt, bs_size); exit(5); }
+  if (writing) memcpy(bs_file + off, addr, (size_t)cnt); else memcpy(addr, bs_file + off, (size_t)cnt);
+  if (bs_loglen < sizeof(bs_log) - 64)
+    bs_loglen += snprintf(bs_log + bs_loglen, sizeof(bs_log) - bs_loglen, "%s%c%ld:%ld:%ld", bs_loglen ? " " : "", writing ? 'W' : 'R',
+                          bs_memidx(addr), bs_rowbytes ? off / bs_rowbytes : -1, bs_rowbytes ? cnt / bs_rowbytes : -1);
+}
+static void bs_read(j_common_ptr c, backing_store_ptr info, void *addr, long off, long cnt) { (void)c; (void)info; bs_xfer(0, addr, off, cnt); }
+static void bs_write(j_common_ptr c, backing_store_ptr info, void *addr, long off, long cnt) { (void)c; (void)info; bs_xfer(1, addr, off, cnt); }
+static void bs_close(j_common_ptr c, backing_store_ptr info) { (void)c; (void)info; __real_free(bs_file); bs_file = NULL; }
+void __wrap_jpeg_open_backing_store(j_common_ptr cinfo, backing_store_ptr info, long total_bytes_needed)
+{
+  if (!bs_enabled) { __real_jpeg_open_backing_store(cinfo, info, total_bytes_needed); return; }
+  info->read_backing_store = bs_read; info->write_backing_store = bs_write; info->close_backing_store = bs_close;
+  bs_size = total_bytes_needed; bs_file = (unsigned char *)__real_malloc((size_t)total_bytes_needed + 1);
+  memset(bs_file, 0xEE, (size_t)total_bytes_needed + 1);
+}
+
+/* vacc <s|b> <prec> <width> <rows> <maxacc> <prezero> <maxmem> | r start num ; w start v v v ; ... */
+static void do_vacc(char *body)
+{
+  char *bar = strchr(body, '|'), kind = 's', *tok, *save = NULL; char eb[32];
+  int prec = 8, pz = 0; unsigned long width = 1, rows = 1, maxacc = 1; long maxmem = 0;
+  j_common_ptr ci = (j_common_ptr)&cinfo; jvirt_sarray_ptr sp = NULL; jvirt_barray_ptr bp = NULL;
+  if (!bar) { puts("?"); return; }
+  *bar = 0;
+  sscanf(body, " %c %d %lu %lu %lu %d %ld", &kind, &prec, &width, &rows, &maxacc, &pz, &maxmem);
+  memset(&cinfo, 0, sizeof(cinfo));
+  cinfo.err = jpeg_std_error(&jerr); jerr.error_exit = my_error_exit; jerr.emit_message = my_emit; jerr.output_message = my_output;
+  cinfo.is_decompressor = FALSE; cinfo.data_precision = prec;
+  nblk = 0; next_id = 0; alloc_idx = 0; badfree = 0; outlen = 0; outbuf[0] = 0; plan_mode = 0; nev = 0; bs_loglen = 0; bs_log[0] = 0;
+  tracking = 1; bs_enabled = 1; bs_isb = kind == 'b';
+  if (setjmp(jb)) { OUT("setup %s", errname(eb)); goto done; }
+  jinit_memory_mgr(ci);
+  if (bs_isb) bp = (*cinfo.mem->request_virt_barray) (ci, JPOOL_IMAGE, pz, (JDIMENSION)width, (JDIMENSION)rows, (JDIMENSION)maxacc);
+  else sp = (*cinfo.mem->request_virt_sarray) (ci, JPOOL_IMAGE, pz, (JDIMENSION)width, (JDIMENSION)rows, (JDIMENSION)maxacc);
+  bs_rows = bs_isb ? (void *)bp : (void *)sp;
+  bs_rowbytes = bs_isb ? (long)width * (long)sizeof(JBLOCK) : (long)width * (prec > 8 ? 2 : 1);
+  {
+    size_t total = ((my_mem_ptr)cinfo.mem)->total_space_allocated;
+    cinfo.mem->max_memory_to_use = maxmem;
+    (*cinfo.mem->realize_virt_arrays) (ci);
+    OUT("geom inmem=%u rpc=%u open=%d total=%zu", bs_isb ? bp->rows_in_mem : sp->rows_in_mem, bs_isb ? bp->rowsperchunk : sp->rowsperchunk,
+        bs_isb ? (int)bp->b_s_open : (int)sp->b_s_open, total);
+  }
+  for (tok = strtok_r(bar + 1, ";", &save); tok; tok = strtok_r(NULL, ";", &save)) {
+    char op = 0; unsigned long start = 0, num = 0; int vals[64], nv = 0, off = 0, n2 = 0; char *q;
+    volatile int writable;
+    if (sscanf(tok, " %c %lu%n", &op, &start, &off) < 2) continue;
+    q = tok + off;
+    if (op == 'r') { sscanf(q, " %lu", &num); writable = 0; }
+    else { while (nv < 64 && sscanf(q, " %d%n", &vals[nv], &n2) == 1) { nv++; q += n2; } num = (unsigned long)nv; writable = 1; }
+    bs_loglen = 0; bs_log[0] = 0;
+    OUT(" ; ");
+    if (setjmp(jb)) {
+      OUT("%s", err_code == JERR_BAD_VIRTUAL_ACCESS ? "bad" : err_code == JERR_VIRTUAL_BUG ? "bug" : errname(eb));
+    } else {
+      unsigned long k; long idx;
+      if (bs_isb) {
+        JBLOCKARRAY r = (*cinfo.mem->access_virt_barray) (ci, bp, (JDIMENSION)start, (JDIMENSION)num, writable);
+        idx = (long)(r - bp->mem_buffer);
+        OUT("ok off=%ld", idx);
+        if (idx < 0 || idx + (long)num > (long)bp->rows_in_mem) OUT(" OUTSIDE-WINDOW");
+        else if (writable) { for (k = 0; k < num; k++) { memset(r[k], 0x77, (size_t)bs_rowbytes); r[k][0][0] = (JCOEF)vals[k]; } }
+        else { OUT(" ["); for (k = 0; k < num; k++) OUT("%s%d", k ? " " : "", (int)r[k][0][0]); OUT("]"); }
+      } else {
+        JSAMPARRAY r = (*cinfo.mem->access_virt_sarray) (ci, sp, (JDIMENSION)start, (JDIMENSION)num, writable);
+        idx = (long)(r - sp->mem_buffer);
+        OUT("ok off=%ld", idx);
+        if (idx < 0 || idx + (long)num > (long)sp->rows_in_mem) OUT(" OUTSIDE-WINDOW");
+        else if (writable) { for (k = 0; k < num; k++) { short v = (short)vals[k]; memset(r[k], 0x77, (size_t)bs_rowbytes); memcpy(r[k], &v, 2); } }
+        else { OUT(" ["); for (k = 0; k < num; k++) { short v; memcpy(&v, r[k], 2); OUT("%s%d", k ? " " : "", (int)v); } OUT("]"); }
+      }
+    }
+    OUT(" x=[%s]", bs_log);
+    if (bs_isb) OUT(" cur=%u undef=%u dirty=%d", bp->cur_start_row, bp->first_undef_row, (int)bp->dirty);
+    else OUT(" cur=%u undef=%u dirty=%d", sp->cur_start_row, sp->first_undef_row, (int)sp->dirty);
+  }
+done:
+  if (cinfo.mem != NULL && !setjmp(jb)) (*cinfo.mem->self_destruct) (ci);
+  { int i, nl = 0; for (i = 0; i < nblk; i++) if (blks[i].live) nl++; OUT(" || end live=%d badfree=%ld", nl, badfree);
+    tracking = 0; for (i = 0; i < nblk; i++) if (blks[i].live) { __real_free(blks[i].p); blks[i].live = 0; } }
+  bs_enabled = 0; if (bs_file) { __real_free(bs_file); bs_file = NULL; }
+  puts(outbuf);
+}
+
 static char line[1 << 20];
 
 int main(void)
@@ -337,6 +441,8 @@ int main(void)
       puts(strcmp(mine, line) ? "cfg MISMATCH-harness" : "cfg ok");
     } else if (!strncmp(line, "seq", 3)) {
       do_seq(line + 3);
+    } else if (!strncmp(line, "vacc", 4)) {
+      do_vacc(line + 4);
     } else {
       puts("?");
     }
